@@ -64,6 +64,17 @@ def check_total(ctx, s, part="total", by_construction=False):
         exp = s.split()
         if toks != exp:
             ctx.fail(part, "C08.split", s, exp, toks)
+    # splitting is a function of the string: what a caller does with the list it got (the help resolver deletes
+    # its first token) does not change what the same string splits into next time
+    snapshot = list(toks)
+    edited = _tokenize(s)
+    edited.tokens.append("edited-by-caller")
+    del edited.tokens[0]
+    again = _tokenize(s)
+    if list(again.tokens) != snapshot or list(raw.tokens) != snapshot:
+        ctx.fail(part, "C08.total", s, snapshot, {"second split": list(again.tokens), "first object": list(raw.tokens)},
+                 sig="split-depends-on-earlier-objects")
+        return
     # option tokens: prefix before the first '--', for the string form and the argv form
     exp_opt = _split_model(toks)
     argv = ArgvArgs(["prog"] + list(toks))
